@@ -714,5 +714,6 @@ func init() {
 		Need:         []string{"count_checks", "min_checks", "max_checks", "avg_checks", "gap_outputs_compared", "gaps_expected", "gap_boundary_pairs", "empty_input_calls", "calls_via_aggrunner"},
 		MinDistinct:  100,
 		BatchTimeout: 20 * time.Minute,
+		ChildEnv:     []string{"GOMAXPROCS=2"}, // a case is single-threaded; keeps 16 children from running 16 GC workers each
 	})
 }
